@@ -1429,13 +1429,23 @@ impl Vm {
     fn call_value(&mut self, value: Value, arg_count: usize) -> Result<(), Error> {
         match value {
             Value::ObjBoundMethod(bound) => {
-                self.poke(arg_count, bound.borrow().receiver);
-                self.call_closure(bound.borrow().method, arg_count)
+                // Copy the fields out first: once the receiver has replaced the bound method on the
+                // stack nothing keeps the bound method alive, so no borrow of it may outlive this line.
+                let (receiver, method) = {
+                    let bound = bound.borrow();
+                    (bound.receiver, bound.method)
+                };
+                self.poke(arg_count, receiver);
+                self.call_closure(method, arg_count)
             }
 
             Value::ObjBoundNative(bound) => {
-                self.poke(arg_count, bound.borrow().receiver);
-                self.call_native(bound.borrow().method, arg_count)
+                let (receiver, method) = {
+                    let bound = bound.borrow();
+                    (bound.receiver, bound.method)
+                };
+                self.poke(arg_count, receiver);
+                self.call_native(method, arg_count)
             }
 
             Value::ObjClosure(function) => self.call_closure(function, arg_count),
